@@ -803,7 +803,7 @@ Local Open Scope positive_scope.
 def run_case(spec: dict, nops: int):
     """Build, dump, clone with the implementation, dump, edit, dump.  -> (coq term, info dict)."""
     import onnx_ir as ir
-    sc = build_scenario(spec)
+    sc = scenario_of(spec)
     gen = sc["gen"]
     R = Reg()
     D = Dumper(R)
@@ -827,7 +827,7 @@ def run_case(spec: dict, nops: int):
         after = D.dump(roots)
         cres = f"(Ok {P(R.id(clone))})"
         info["cells_after"] = len(after)
-        rng = random.Random(spec["seed"] * 7919 + 13)
+        rng = random.Random(spec.get("seed", 0) * 7919 + 13)
         cnt = [0]
 
         def uniq(p):
@@ -906,6 +906,17 @@ def builtin_scenario(name: str):
         g = ir.Graph([x, c], n.outputs, nodes=[n], initializers=[w], name="g", opset_imports={"": 20},
                      metadata_props={"a": "b"})
         target, allow = sub, True
+    elif name == "tensor_attr_shared":
+        # known finding: the Value.name setter renames the (shared) tensor; here the tensor is also an attribute
+        t = ir.Tensor(np.array([1.0], dtype=np.float32), name="t")
+        gen.tensors.append(t)
+        n = ir.Node("", "Constant", [], [ir.AttrTensor("value", t)], name="c")
+        n.outputs[0].name = "v"
+        n.outputs[0].const_value = t
+        g = ir.Graph([], n.outputs, nodes=[n], name="g", opset_imports={"": 20})
+        model = ir.Model(g, ir_version=10)
+        return {"model": model, "gen": gen, "target": model, "univ": [model], "kind": 3, "allow": False, "deep": False,
+                "clone": lambda: model.clone()}
     elif name == "subgraph_capture_rejected":
         sc = builtin_scenario("subgraph_capture")
         sub = sc["target"]
@@ -929,13 +940,65 @@ def scenario_of(spec: dict):
 
 # --------------------------------------------------------------------------- the property oracle (public API only)
 
-def serialize(ir, root) -> bytes:
+def serialize(ir, root, normalize_view: bool = False) -> bytes:
     from onnx_ir import serde
     if isinstance(root, ir.Model):
         return serde.serialize_model(root).SerializeToString(deterministic=True)
     if isinstance(root, ir.Function):
         return serde.serialize_function(root).SerializeToString(deterministic=True)
-    return serde.serialize_graph(root).SerializeToString(deterministic=True)
+    p = serde.serialize_graph(root)
+    if normalize_view:
+        # Whether a GraphView serializes a value_info entry for a node output is decided by is_graph_output(),
+        # a property of the OWNING graph, not of the view (outputs of the view that are not outputs of the
+        # underlying graph are listed twice, outputs of the underlying graph that are interior to the view are
+        # not listed).  A view and its clone are therefore compared modulo value_info; the information carried by
+        # value_info (names, types, shapes, metadata of every value) is compared by py_canon instead.
+        del p.value_info[:]
+    return p.SerializeToString(deterministic=True)
+
+
+def py_canon(ir, root):
+    """Name-based canonical structure through public accessors (the Python twin of Model.v's gcanon)."""
+    def me(o):
+        # meta entries and the keys marked invalid (probed through the public is_valid)
+        probes = list(o.meta) + ["m1", "m2", "m3", "m9", "mm", "note", "edited"]
+        return ([(k, repr(x)) for k, x in o.meta.items()], sorted({k for k in probes if not o.meta.is_valid(k)}))
+
+    def value(v):
+        sh = v.shape
+        return (v.name, type_chain(v.type), None if sh is None else ([repr(d) for d in sh.dims],
+                [sh.get_denotation(i) for i in range(len(sh))]), v.doc_string,
+                None if v.const_value is None else id(v.const_value), list(v.metadata_props.items()), me(v))
+
+    def attr(a):
+        T = ir.AttributeType
+        if a.is_ref():
+            return (a.name, "ref", a.ref_attr_name, int(a.type))
+        if a.type == T.GRAPH:
+            return (a.name, graph(a.value), a.doc_string)
+        if a.type == T.GRAPHS:
+            return (a.name, [graph(g) for g in a.value], a.doc_string)
+        return (a.name, int(a.type), id(a.value) if a.type in (T.TENSOR, T.TENSORS) else repr(a.value), a.doc_string)
+
+    def graph(g):
+        return (g.name, [value(v) for v in g.inputs], [v.name for v in g.outputs],
+                [value(v) for v in g.initializers.values()],
+                [(n.name, n.domain, n.op_type, n.overload, n.version, [None if v is None else v.name for v in n.inputs],
+                  [value(v) for v in n.outputs], [attr(a) for a in n.attributes.values()], n.doc_string,
+                  list(n.metadata_props.items()), me(n),
+                  [(id(c.configuration), c.pipeline_stage,
+                    [(None if s.value is None else s.value.name, repr((s.device, s.index_to_device_group_map,
+                                                                        s.sharded_dims))) for s in c.sharding_specs])
+                   for c in n.device_configurations]) for n in g],
+                g.doc_string, list(g.opset_imports.items()), list(g.metadata_props.items()), me(g))
+    if isinstance(root, ir.Model):
+        return (graph(root.graph), [(list(k), f.domain, f.name, f.overload, graph(f._graph),  # noqa: SLF001
+                                     [attr(a) for a in f.attributes.values()]) for k, f in root.functions.items()],
+                root.ir_version, root.producer_name, root.doc_string, list(root.metadata_props.items()))
+    if isinstance(root, ir.Function):
+        return (root.domain, root.name, root.overload, graph(root._graph),  # noqa: SLF001
+                [attr(a) for a in root.attributes.values()])
+    return graph(root)
 
 
 def type_chain(t):
@@ -1074,13 +1137,17 @@ def owned_values(ir, g):
     return {id(v) for k, v in traversal_events(ir, g) if k == "def"}
 
 
-def edit_everything(ir, root, rng, tensors):
-    """Apply every public setter to every object reachable from root (a clone or an original)."""
+def edit_everything(ir, root, rng, tensors, skip=(), rename=True, deep=False):
+    """Apply every public setter to every object reachable from root (a clone or an original), except the
+    values in [skip] (captured outer-scope values, shared by design)."""
     vals, nodes, graphs = collect(ir, root)
+    skip_ids = {id(v) for v in skip}
+    vals = [v for v in vals if id(v) not in skip_ids]
     n = 0
     for v in vals:
         try:
-            v.name = (v.name or "anon") + "_edited"
+            if rename:
+                v.name = (v.name or "anon") + "_edited"
         except Exception:  # noqa: BLE001
             pass
         v.dtype = ir.DataType.INT8
@@ -1095,14 +1162,15 @@ def edit_everything(ir, root, rng, tensors):
         v.meta["edited"] = 1
         v.meta.invalidate("m1")
         for k, x in list(v.meta.items()):
-            if isinstance(x, list) and root_deep.get("deep"):
+            if isinstance(x, list) and deep:
                 x.append(99)
         v.doc_string = "edited"
         n += 8
     for v in vals[: len(vals) // 2]:
         v.type = ir.TensorType(ir.DataType.BOOL)
         v.shape = ir.Shape([9, 9])
-        v.const_value = tensors[0] if tensors else None
+        if not v.is_initializer():
+            v.const_value = tensors[0] if tensors else None
     for nd in nodes:
         nd.name = (nd.name or "anon") + "_edited"
         nd.doc_string = "edited"
@@ -1142,10 +1210,7 @@ def edit_everything(ir, root, rng, tensors):
     return n
 
 
-root_deep = {"deep": False}
-
-
-def oracle(spec: dict) -> list[dict]:
+def oracle(spec: dict, rename: bool = True) -> list[dict]:
     """The property itself, on one scenario.  -> list of failures ({kind, what})."""
     import onnx_ir as ir
     fails: list[dict] = []
@@ -1163,11 +1228,20 @@ def oracle(spec: dict) -> list[dict]:
     if kind in (2, 3):
         # functions of a model are separate scopes
         pass
-    before = snapshot(ir, sc["model"])
+    # serialization synchronizes the names of initializer tensors with their values (serde: "make sure the
+    # tensor's name is the same as the value's name"), so the first serialization may itself rename a tensor that
+    # is also used as an attribute; baselines are taken after one warm-up serialization
+    try:
+        serialize(ir, sc["model"])
+        serialize(ir, root)
+    except Exception:  # noqa: BLE001
+        pass
+    canon_root = py_canon(ir, root)
+    before = snapshot(ir, sc["model"], skip_uses_of=outer)
     ser_before = serialize(ir, sc["model"])
     ser_root = None
     try:
-        ser_root = serialize(ir, root)
+        ser_root = serialize(ir, root, normalize_view=(kind == 1))
     except Exception:  # noqa: BLE001
         ser_root = None
     try:
@@ -1175,7 +1249,7 @@ def oracle(spec: dict) -> list[dict]:
     except Exception as e:  # noqa: BLE001
         if not outer and sorted_py and kind != 3:
             bad("rejected", f"clone of a closed, sorted graph raised {type(e).__name__}: {str(e)[:120]}")
-        if snapshot(ir, sc["model"]) != before or serialize(ir, sc["model"]) != ser_before:
+        if snapshot(ir, sc["model"], skip_uses_of=outer) != before or serialize(ir, sc["model"]) != ser_before:
             bad("original-changed", "a rejected clone changed the original")
         return fails
     if outer and not allow and kind in (0, 1):
@@ -1183,10 +1257,13 @@ def oracle(spec: dict) -> list[dict]:
     # 1. serializes like the original
     if ser_root is not None:
         try:
-            if serialize(ir, clone) != ser_root:
+            if serialize(ir, clone, normalize_view=(kind == 1)) != ser_root:
                 bad("serialization", "serialized clone differs from the serialized original")
         except Exception as e:  # noqa: BLE001
             bad("serialization", f"the clone cannot be serialized: {type(e).__name__}")
+    if py_canon(ir, clone) != canon_root:
+        bad("structure", "canonical structure of the clone differs from the original's: "
+            + first_diff(canon_root, py_canon(ir, clone)))
     # 2. new objects
     mo_orig, _, _, _ = mutable_objects(ir, sc["model"], deep)
     if kind == 1:
@@ -1223,15 +1300,16 @@ def oracle(spec: dict) -> list[dict]:
             bad("references-original", f"{what} is the ORIGINAL's own value {v.name!r} (not its clone)")
         elif not allow:
             bad("references-outer", f"{what} is the outer-scope value {v.name!r} although outer-scope values are not allowed")
-    if snapshot(ir, sc["model"], skip_uses_of=outer) != snapshot_wo(before, ir, sc, outer):
-        bad("original-changed", "cloning changed the original's observable state")
+    if not any(f["kind"] == "references-original" for f in fails):
+        now = snapshot(ir, sc["model"], skip_uses_of=outer)
+        if now != before:
+            bad("original-changed", "cloning changed the original's observable state: " + first_diff(before, now))
     # 4. edit the clone with every setter; the original must not change
     base = snapshot(ir, sc["model"], skip_uses_of=outer)
     ser0 = serialize(ir, sc["model"])
-    root_deep["deep"] = deep
     rng = random.Random(spec.get("seed", 0) + 5)
     try:
-        edit_everything(ir, clone, rng, sc["gen"].tensors)
+        edit_everything(ir, clone, rng, sc["gen"].tensors, skip=outer, rename=rename, deep=deep)
     except Exception as e:  # noqa: BLE001
         bad("edit-error", f"editing the clone raised {type(e).__name__}: {str(e)[:100]}")
     if any(f["kind"] == "references-original" for f in fails):
@@ -1242,14 +1320,6 @@ def oracle(spec: dict) -> list[dict]:
     elif serialize(ir, sc["model"]) != ser0:
         bad("edit-clone-changes-original", "editing the clone changed the serialized original")
     return fails
-
-
-def snapshot_wo(before, ir, sc, outer):
-    """snapshot taken before cloning, recomputed without the use lists of captured values (by design the clone's
-    nodes become users of captured outer-scope values)."""
-    if not outer:
-        return before
-    return None  # not comparable: handled by oracle_sym / the caller skips
 
 
 def first_diff(a, b, path="") -> str:
@@ -1271,7 +1341,7 @@ def first_diff(a, b, path="") -> str:
     return f"{path}: {a!r} -> {b!r}"
 
 
-def oracle_sym(spec: dict) -> list[dict]:
+def oracle_sym(spec: dict, rename: bool = True) -> list[dict]:
     """Symmetric direction: edit the original with every setter, the clone must not change."""
     import onnx_ir as ir
     fails = []
@@ -1286,11 +1356,16 @@ def oracle_sym(spec: dict) -> list[dict]:
     outer = [v for k, v in ev if k == "use" and id(v) not in owned]
     if outer or not is_sorted(ir, cg):
         return fails       # captured values are shared by design; the unsorted case is reported by oracle()
+    try:
+        serialize(ir, sc["model"])
+        serialize(ir, clone)
+    except Exception:  # noqa: BLE001
+        return fails
     base = snapshot(ir, clone)
     ser0 = serialize(ir, clone)
-    root_deep["deep"] = sc["deep"]
     try:
-        edit_everything(ir, sc["target"] if sc["kind"] != 1 else cg, random.Random(7), sc["gen"].tensors)
+        edit_everything(ir, sc["target"] if sc["kind"] != 1 else cg, random.Random(7), sc["gen"].tensors,
+                        rename=rename, deep=sc["deep"])
     except Exception:  # noqa: BLE001
         pass
     after = snapshot(ir, clone)
@@ -1302,19 +1377,19 @@ def oracle_sym(spec: dict) -> list[dict]:
     return fails
 
 
-def oracle_functional(spec: dict) -> list[dict]:
+def oracle_functional(spec: dict, rename: bool = True) -> list[dict]:
     """functionalize(p)(model) must not alter the input model, whatever p does with the model it is given."""
     import onnx_ir as ir
     from onnx_ir.passes import _pass_infra as pi
     fails = []
     sc = scenario_of(dict(spec, kind=3))
     model = sc["model"]
-    root_deep["deep"] = False
 
     class EditAll(pi.InPlacePass):
         def call(self, m):
-            edit_everything(ir, m, random.Random(3), sc["gen"].tensors)
+            edit_everything(ir, m, random.Random(3), sc["gen"].tensors, rename=rename)
             return pi.PassResult(m, True)
+    serialize(ir, model)
     base = snapshot(ir, model)
     ser0 = serialize(ir, model)
     try:
@@ -1333,9 +1408,230 @@ def oracle_functional(spec: dict) -> list[dict]:
     return fails
 
 
-def all_oracles(spec: dict) -> list[dict]:
-    out = oracle(spec)
-    out += oracle_sym(spec)
+def all_oracles(spec: dict, rename: bool = True) -> list[dict]:
+    out = oracle(spec, rename)
+    out += oracle_sym(spec, rename)
     if spec.get("kind") == 3:
-        out += oracle_functional(spec)
+        out += oracle_functional(spec, rename)
     return out
+
+
+# --------------------------------------------------------------------------- known findings (by site + witness)
+
+KNOWN_UNSORTED = "unsorted-outer-scope"
+KNOWN_TENSOR = "tensor-rename-alias"
+
+
+def classify(spec: dict, fails: list[dict]) -> tuple[list[str], list[dict]]:
+    """-> (known-finding keys that account for some failures, failures not accounted for)."""
+    import onnx_ir as ir
+    if not fails:
+        return [], []
+    keys, rest = [], list(fails)
+    sc = scenario_of(spec)
+    # (1) use before definition + allow_outer_scope_values: the clone references the original's own value
+    if sc["allow"] and not is_sorted(ir, cloned_graph_of(sc)) and any(f["kind"] == "references-original" for f in rest):
+        keys.append(KNOWN_UNSORTED)
+        rest = [f for f in rest if f["kind"] not in ("references-original", "shared", "original-changed",
+                                                     "edit-clone-changes-original", "edit-error")]
+    # (2) Value.name setter renames the tensor object shared by clone and original: attributed by re-running the
+    # oracle with value renaming switched off
+    alias_kinds = ("edit-clone-changes-original", "edit-original-changes-clone", "functional-pass")
+    if rest and all(f["kind"] in alias_kinds and "serialized" in f["what"] for f in rest):
+        again = [f for f in all_oracles(spec, rename=False) if f["kind"] in alias_kinds]
+        if not again:
+            keys.append(KNOWN_TENSOR)
+            rest = []
+    return keys, rest
+
+
+# --------------------------------------------------------------------------- driver
+
+def spec_for(rng, i: int, size=None) -> dict:
+    kind = [0, 0, 1, 2, 3, 3][i % 6]
+    return {"seed": rng.randrange(1 << 30), "size": size or rng.choice([1, 2, 3, 3, 4]), "kind": kind,
+            "pick": rng.randrange(6), "allow": rng.random() < 0.6, "deep": rng.random() < 0.4}
+
+
+def load_corpus() -> list[dict]:
+    d = os.path.join(common.CORPUS, PROP)
+    out = []
+    if os.path.isdir(d):
+        for fn in sorted(os.listdir(d)):
+            if fn.endswith(".json"):
+                with open(os.path.join(d, fn)) as f:
+                    out.append(json.load(f))
+    return out
+
+
+def correspondence(ck, specs: list[dict], nops: int, tag: str):
+    """-> (list of (spec, code) that disagree, infos)."""
+    terms, infos = [], []
+    for sp in specs:
+        t, info = run_case(sp, nops)
+        terms.append(t)
+        infos.append(info)
+    chunk = 25
+    files = [(f"{tag}_{k // chunk}", case_file(terms[k:k + chunk])) for k in range(0, len(terms), chunk)]
+    results = ck.coq_eval_many(files, timeout=900)
+    bad = []
+    for (name, _), (rc, out), k in zip(files, results, range(0, len(terms), chunk)):
+        if rc != 0:
+            raise RuntimeError(f"case file {name} did not compile:\n{out[-3000:]}")
+        for code in common.parse_nat_list(out):
+            bad.append((specs[k + code // 10], code % 10))
+    return bad, infos
+
+
+def shrink(spec: dict, kinds: set[str]) -> dict:
+    """Smaller generator parameters that still show a failure of the same kind."""
+    if "builtin" in spec:
+        return spec
+
+    def fails(sp):
+        try:
+            _, rest = classify(sp, all_oracles(sp))
+        except Exception:  # noqa: BLE001
+            return False
+        return any(f["kind"] in kinds for f in rest)
+    best = spec
+    for size in (1, 2):
+        if size >= spec.get("size", 3):
+            break
+        for seed in range(60):
+            sp = dict(spec, size=size, seed=seed)
+            if fails(sp):
+                return sp
+    return best
+
+
+def report_oracle_failure(ck, spec, fails, origin: str, seen: set):
+    keys, rest = classify(spec, fails)
+    for k in keys:
+        kn = ck.known(k)
+        if kn is not None:
+            ck.known_finding(k, kn["what"])
+        else:
+            rest = rest + [f for f in fails if f not in rest]
+    if not rest:
+        return
+    sig = tuple(sorted({f["kind"] for f in rest}))
+    if sig in seen:
+        return
+    seen.add(sig)
+    small = shrink(spec, set(sig))
+    sf = classify(small, all_oracles(small))[1] or rest
+    ck.violation({"kind": "oracle", "origin": origin, "spec": small, "original_spec": spec, "failures": sf[:8],
+                  "how_to_read": "spec = generator parameters (harness/props/c13.py build_scenario) or a builtin "
+                                 "scenario; failures = statements of the property that do not hold on /repo",
+                  "broken": ck.broken_items})
+
+
+def replay_known(ck):
+    for k in ck._known:
+        if k.get("status") != "known":
+            continue
+        spec = k["witness"]
+        fails = all_oracles(spec)
+        keys, rest = classify(spec, fails)
+        if k["key"] in keys:
+            ck.known_finding(k["key"], k["what"])
+        else:
+            ck.broken(f"known-finding-stale:{k['key']}",
+                      "the recorded witness no longer fails on the implementation (failures now: "
+                      + json.dumps([f['kind'] for f in fails]) + ")")
+
+
+def search(ck, seen):
+    budget = 300 if not ck.thorough else 3000
+    for i in range(budget):
+        sp = spec_for(ck.rng, i)
+        try:
+            fails = all_oracles(sp)
+        except Exception as e:  # noqa: BLE001
+            fails = [{"kind": "oracle-error", "what": f"{type(e).__name__}: {e}"}]
+        ck.count()
+        if fails:
+            report_oracle_failure(ck, sp, fails, "search-after-broken-obligation", seen)
+            if ck.violations:
+                return
+
+
+def run(ck) -> None:
+    import logging
+    logging.disable(logging.WARNING)
+    ck.trust("Coq 8.16.1 kernel (coqc; vm_compute in case files and in the witness lemmas; no native_compute)",
+             "harness/props/c13.py (generators, dump of the implementation's object graph, Coq literal printer, oracle)",
+             "coq/theories/C13/Iso.v (heap isomorphism check used by the case files; definitions only)",
+             "environment contract: a pass only touches what is reachable from the model it is given and what it creates "
+             "(C13_functional_pass_pure quantifies over all programs of edits on such objects)",
+             "modelled not verified: back-pointers (uses/producer/owning graph) and the name authority (C01/C15), tensor "
+             "objects' own fields (tensors are immutable tokens in the model), mutation of shared non-graph Attr objects "
+             "(Attr.name/doc_string/meta setters: Attr objects are shared by design, weaker reading), inner element-type "
+             "objects shared between two values of the original, copy.deepcopy of arbitrary meta values (lists of ints here)")
+    ck.assumptions += ["PYTHONHASHSEED fixed by ./check", "onnx/numpy as installed in /venv"]
+    ck.coverage["rule"] = ("cases = seeded public-API models (nested subgraphs, captured/shared values, initializers, "
+                           "metadata, device annotations, functions, views, unsorted node lists) x clone entry point "
+                           "(Graph/GraphView/Function/Model.clone, allow_outer_scope_values, deep_copy) x a random edit history "
+                           "on either copy; non-trivial = the clone succeeded, allocated >= 10 cells and >= 1 edit was applied")
+    ck.prove()
+    seen: set = set()
+    # ---- corpus + generated cases: correspondence model <-> implementation
+    n = 96 if not ck.thorough else 2400
+    nops = 6 if not ck.thorough else 10
+    specs = load_corpus() + [spec_for(ck.rng, i) for i in range(n)]
+    try:
+        bad, infos = correspondence(ck, specs, nops, "cases")
+    except RuntimeError as e:
+        bad, infos = [], []
+        ck.broken("correspondence:case-file", str(e))
+    ck.count(len(infos))
+    ck.coverage["traces_validated_against_impl"] = len(infos)
+    for sp, info in zip(specs, infos):
+        ck.hist("outcomes", info["outcome"])
+        ck.hist("clone_kind", ["Graph.clone", "GraphView.clone", "Function.clone", "Model.clone"][sp.get("kind", 0)]
+                if "builtin" not in sp else "builtin")
+        ck.hist("flags", f"allow={bool(sp.get('allow'))},deep={bool(sp.get('deep'))}")
+        ck.hist("sorted", str(info["sorted"]))
+        for o in info["ops"]:
+            ck.hist("ops", o["op"])
+            ck.hist("op_results", o["result"])
+        if info["outcome"] == "ok" and info.get("cells_after", 0) - info["cells_before"] >= 10 and \
+                any(o["result"] == "ok" for o in info["ops"]):
+            ck.nontriv(sp)
+    for sp, info in list(zip(specs, infos))[:4]:
+        ck.sample({"spec": sp, "outcome": info["outcome"], "cells_before": info["cells_before"],
+                   "cells_after": info.get("cells_after"), "ops": info["ops"][:3]})
+    for sp, code in bad[:6]:
+        ck.broken("correspondence:clone-model-vs-implementation",
+                  json.dumps({"spec": sp, "stage": CODE_MEANING.get(code, str(code))}))
+    # ---- the oracle on the same scenarios (and more)
+    extra = 60 if not ck.thorough else 1500
+    ospecs = specs + [spec_for(ck.rng, i) for i in range(extra)]
+    for sp, _ in bad:
+        ospecs.insert(0, sp)
+    for sp in ospecs:
+        try:
+            fails = all_oracles(sp)
+        except Exception as e:  # noqa: BLE001
+            fails = [{"kind": "oracle-error", "what": f"{type(e).__name__}: {e}"}]
+        ck.count()
+        if fails:
+            report_oracle_failure(ck, sp, fails, "oracle", seen)
+    # ---- known findings are replayed on every run
+    replay_known(ck)
+    # ---- something broken but no concrete input yet: search
+    if ck.broken_items and not ck.violations:
+        search(ck, seen)
+
+
+def replay(rp: dict) -> int:
+    spec = rp.get("spec")
+    if spec is None:
+        print("replay names a broken obligation/correspondence, no concrete input:",
+              json.dumps(rp.get("broken"), indent=1)[:3000])
+        return 1
+    fails = all_oracles(spec)
+    keys, rest = classify(spec, fails)
+    print(json.dumps({"spec": spec, "failures": rest, "known": keys}, indent=1))
+    return 1 if rest else 0
